@@ -72,3 +72,208 @@ package types
 //@ func lemmaHHmmMirror
 //@   returns ok
 //@   ensures mirror: ok
+
+// ---- wire codecs (C01, C02, C05, C13, C18) --------------------------------------------------
+// bcd.pack(v) is the packed-BCD byte of 0 <= v <= 99; bcd.val2(b) the value of a packed byte;
+// bcd.ok(b) says both nibbles are decimal.
+
+//@ func (Date).MarshalUT0311L0x
+//@   params d
+//@   returns (b, err)
+//@   define Y = time.year(d.abs, d.loc)
+//@   ensures zero:  d.abs == 0 && d.ns == 0 ==> err == nil && len(b) == 4 && b[0] == 0 && b[1] == 0 && b[2] == 0 && b[3] == 0
+//@   ensures value: !(d.abs == 0 && d.ns == 0) && 0 <= Y && Y <= 9999 ==> err == nil && len(b) == 4 &&
+//@                    b[0] == bcd.pack(Y / 100) && b[1] == bcd.pack(Y % 100) &&
+//@                    b[2] == bcd.pack(time.month(d.abs, d.loc)) && b[3] == bcd.pack(time.day(d.abs, d.loc))
+//@   ensures bound: len(b) <= 21
+//@   ensures fresh: fresh(b)
+
+//@ func (*Date).UnmarshalUT0311L0x
+//@   params d, bytes
+//@   returns (res, err)
+//@   attr result0.dyn = *types.Date|nil
+//@   requires length: len(bytes) >= 4
+//@   define OK = bcd.ok(bytes[0]) && bcd.ok(bytes[1]) && bcd.ok(bytes[2]) && bcd.ok(bytes[3])
+//@   define Y = 100 * bcd.val2(bytes[0]) + bcd.val2(bytes[1])
+//@   define M = bcd.val2(bytes[2])
+//@   define D = bcd.val2(bytes[3])
+//@   define NODATE = (Y == 0 && M == 0 && D == 0) || (Y == 1 && M == 1 && D == 1)
+//@   define R = unbox("*types.Date", res)
+//@   ensures nibble:  !OK ==> err != nil
+//@   ensures noerr:   OK ==> err == nil
+//@   ensures nodate:  OK && NODATE ==> (d == nil ==> res == nil) && (d != nil ==> dyntype(res) == typeid("*types.Date") && R.abs == 0 && R.ns == 0)
+//@   ensures invalid: OK && !NODATE && !time.validDate(Y, M, D) ==> dyntype(res) == typeid("*types.Date") && R.abs == 0 && R.ns == 0
+//@   ensures valid:   OK && !NODATE && time.validDate(Y, M, D) ==> dyntype(res) == typeid("*types.Date") && fresh(R) &&
+//@                      R.loc == time.Local && R.ns == 0 && R.abs == time.dateAbs(time.civil(Y, M, D, 0, 0, 0), time.Local)
+//@   ensures civil:   OK && !NODATE && time.validDate(Y, M, D) && time.dayExists(time.dayNo(Y, M, D), time.Local) ==>
+//@                      time.year(R.abs, R.loc) == Y && time.month(R.abs, R.loc) == M && time.day(R.abs, R.loc) == D
+
+//@ func (DateTime).MarshalUT0311L0x
+//@   params d
+//@   returns (b, err)
+//@   define Y = time.year(d.abs, d.loc)
+//@   ensures value: 0 <= Y && Y <= 9999 ==> err == nil && len(b) == 7 &&
+//@                    b[0] == bcd.pack(Y / 100) && b[1] == bcd.pack(Y % 100) &&
+//@                    b[2] == bcd.pack(time.month(d.abs, d.loc)) && b[3] == bcd.pack(time.day(d.abs, d.loc)) &&
+//@                    b[4] == bcd.pack(time.hour(d.abs, d.loc)) && b[5] == bcd.pack(time.minute(d.abs, d.loc)) && b[6] == bcd.pack(time.second(d.abs, d.loc))
+//@   ensures bound: len(b) <= 21
+//@   ensures fresh: fresh(b)
+
+//@ func (*DateTime).UnmarshalUT0311L0x
+//@   params d, b
+//@   returns (res, err)
+//@   attr result0.dyn = *types.DateTime|nil
+//@   requires length: len(b) >= 7
+//@   define OK = bcd.ok(b[0]) && bcd.ok(b[1]) && bcd.ok(b[2]) && bcd.ok(b[3]) && bcd.ok(b[4]) && bcd.ok(b[5]) && bcd.ok(b[6])
+//@   define Y = 100 * bcd.val2(b[0]) + bcd.val2(b[1])
+//@   define M = bcd.val2(b[2])
+//@   define D = bcd.val2(b[3])
+//@   define H = bcd.val2(b[4])
+//@   define MI = bcd.val2(b[5])
+//@   define S = bcd.val2(b[6])
+//@   define TAILZERO = b[1] == 0 && b[2] == 0 && b[3] == 0 && b[4] == 0 && b[5] == 0 && b[6] == 0
+//@   define NODATE = (b[0] == 0 || b[0] == 32) && TAILZERO
+//@   define VALID = time.validDate(Y, M, D) && time.validClock(H, MI, S)
+//@   define R = unbox("*types.DateTime", res)
+//@   ensures nodate:  NODATE ==> err == nil && (d == nil ==> res == nil) && (d != nil ==> dyntype(res) == typeid("*types.DateTime") && R.abs == 0 && R.ns == 0)
+//@   ensures nibble:  !NODATE && !OK ==> err != nil
+//@   ensures noerr:   OK ==> err == nil
+//@   ensures invalid: !NODATE && OK && !VALID ==> dyntype(res) == typeid("*types.DateTime") && R.abs == 0 && R.ns == 0
+//@   ensures valid:   !NODATE && OK && VALID ==> dyntype(res) == typeid("*types.DateTime") && fresh(R) &&
+//@                      R.loc == time.Local && R.ns == 0 && R.abs == time.dateAbs(time.civil(Y, M, D, H, MI, S), time.Local)
+//@   ensures civil:   !NODATE && OK && VALID && time.exists(time.civil(Y, M, D, H, MI, S), time.Local) ==>
+//@                      time.year(R.abs, R.loc) == Y && time.month(R.abs, R.loc) == M && time.day(R.abs, R.loc) == D &&
+//@                      time.hour(R.abs, R.loc) == H && time.minute(R.abs, R.loc) == MI && time.second(R.abs, R.loc) == S
+
+//@ func (SystemDate).MarshalUT0311L0x
+//@   params d
+//@   returns (b, err)
+//@   ensures value: err == nil && len(b) == 3 && b[0] == bcd.pack(time.year(d.abs, d.loc) % 100) &&
+//@                    b[1] == bcd.pack(time.month(d.abs, d.loc)) && b[2] == bcd.pack(time.day(d.abs, d.loc))
+//@   ensures bound: len(b) <= 21
+//@   ensures fresh: fresh(b)
+
+//@ func (*SystemDate).UnmarshalUT0311L0x
+//@   params d, b
+//@   returns (res, err)
+//@   attr result0.dyn = *types.SystemDate|nil
+//@   requires length: len(b) >= 3
+//@   define OK = bcd.ok(b[0]) && bcd.ok(b[1]) && bcd.ok(b[2])
+//@   define YY = bcd.val2(b[0])
+//@   define Y = (YY >= 69 ? 1900 + YY : 2000 + YY)
+//@   define M = bcd.val2(b[1])
+//@   define D = bcd.val2(b[2])
+//@   define ZERO = b[0] == 0 && b[1] == 0 && b[2] == 0
+//@   define R = unbox("*types.SystemDate", res)
+//@   ensures zero:    ZERO ==> err == nil && dyntype(res) == typeid("*types.SystemDate") && R.abs == 0 && R.ns == 0
+//@   ensures nibble:  !ZERO && !OK ==> err != nil
+//@   ensures invalid: !ZERO && OK && !time.validDate(Y, M, D) ==> err != nil
+//@   ensures valid:   !ZERO && OK && time.validDate(Y, M, D) ==> err == nil && dyntype(res) == typeid("*types.SystemDate") && fresh(R) &&
+//@                      R.loc == time.Local && R.ns == 0 && R.abs == time.dateAbs(time.civil(Y, M, D, 0, 0, 0), time.Local)
+//@   ensures civil:   !ZERO && OK && time.validDate(Y, M, D) && time.dayExists(time.dayNo(Y, M, D), time.Local) ==>
+//@                      time.year(R.abs, R.loc) == Y && time.month(R.abs, R.loc) == M && time.day(R.abs, R.loc) == D
+
+//@ func (SystemTime).MarshalUT0311L0x
+//@   params d
+//@   returns (b, err)
+//@   ensures value: err == nil && len(b) == 3 && b[0] == bcd.pack(time.hour(d.abs, d.loc)) &&
+//@                    b[1] == bcd.pack(time.minute(d.abs, d.loc)) && b[2] == bcd.pack(time.second(d.abs, d.loc))
+//@   ensures bound: len(b) <= 21
+//@   ensures fresh: fresh(b)
+
+//@ func (*SystemTime).UnmarshalUT0311L0x
+//@   params t, bytes
+//@   returns (res, err)
+//@   attr result0.dyn = *types.SystemTime|nil
+//@   requires length: len(bytes) >= 3
+//@   define OK = bcd.ok(bytes[0]) && bcd.ok(bytes[1]) && bcd.ok(bytes[2])
+//@   define H = bcd.val2(bytes[0])
+//@   define MI = bcd.val2(bytes[1])
+//@   define S = bcd.val2(bytes[2])
+//@   define R = unbox("*types.SystemTime", res)
+//@   ensures nibble:  !OK ==> err != nil
+//@   ensures invalid: OK && !time.validClock(H, MI, S) ==> err != nil
+//@   ensures valid:   OK && time.validClock(H, MI, S) ==> err == nil && dyntype(res) == typeid("*types.SystemTime") && fresh(R) &&
+//@                      R.loc == time.Local && R.ns == 0 && R.abs == time.dateAbs(time.civil(0, 1, 1, H, MI, S), time.Local)
+
+//@ func (HHmm).MarshalUT0311L0x
+//@   params h
+//@   returns (b, err)
+//@   ensures value: 0 <= h.hours && h.hours <= 99 && 0 <= h.minutes && h.minutes <= 99 ==>
+//@                    err == nil && len(b) == 2 && b[0] == bcd.pack(h.hours) && b[1] == bcd.pack(h.minutes)
+//@   ensures bound: len(b) <= 21
+//@   ensures fresh: fresh(b)
+
+//@ func (*HHmm).UnmarshalUT0311L0x
+//@   params h, bytes
+//@   returns (res, err)
+//@   attr result0.dyn = *types.HHmm|nil
+//@   requires length: len(bytes) >= 2
+//@   define OK = bcd.ok(bytes[0]) && bcd.ok(bytes[1])
+//@   define H = bcd.val2(bytes[0])
+//@   define M = bcd.val2(bytes[1])
+//@   define INDOMAIN = H <= 24 && M <= 59 && !(H == 24 && M != 0)
+//@   define R = unbox("*types.HHmm", res)
+//@   ensures nibble:   !OK ==> err != nil
+//@   ensures domain:   OK && !INDOMAIN ==> err != nil
+//@   ensures value:    OK && INDOMAIN ==> err == nil && dyntype(res) == typeid("*types.HHmm") && fresh(R) && R.hours == H && R.minutes == M
+
+//@ func (PIN).MarshalUT0311L0x
+//@   params p
+//@   returns (b, err)
+//@   ensures value: err == nil && len(b) == 3 && b[0] + 256 * b[1] + 65536 * b[2] == p % 16777216
+//@   ensures fresh: fresh(b)
+
+//@ func (*PIN).UnmarshalUT0311L0x
+//@   params p, bytes
+//@   returns (res, err)
+//@   attr result0.dyn = *types.PIN
+//@   requires length: len(bytes) >= 3 && p != nil
+//@   modifies p
+//@   define R = unbox("*types.PIN", res)
+//@   ensures value: err == nil && dyntype(res) == typeid("*types.PIN") && *R == bytes[0] + 256 * bytes[1] + 65536 * bytes[2]
+//@   ensures recv:  *p == bytes[0] + 256 * bytes[1] + 65536 * bytes[2]
+
+//@ func (SerialNumber).MarshalUT0311L0x
+//@   params s
+//@   returns (b, err)
+//@   ensures value: err == nil && len(b) == 4 && b[0] + 256 * b[1] + 65536 * b[2] + 16777216 * b[3] == s
+//@   ensures fresh: fresh(b)
+
+//@ func (*SerialNumber).UnmarshalUT0311L0x
+//@   params s, bytes
+//@   returns (res, err)
+//@   attr result0.dyn = *types.SerialNumber
+//@   requires length: len(bytes) >= 4
+//@   define R = unbox("*types.SerialNumber", res)
+//@   ensures value: err == nil && dyntype(res) == typeid("*types.SerialNumber") && fresh(R) &&
+//@                    *R == bytes[0] + 256 * bytes[1] + 65536 * bytes[2] + 16777216 * bytes[3]
+
+//@ func (Version).MarshalUT0311L0x
+//@   params v
+//@   returns (b, err)
+//@   ensures value: err == nil && len(b) == 2 && 256 * b[0] + b[1] == v
+//@   ensures fresh: fresh(b)
+
+//@ func (*Version).UnmarshalUT0311L0x
+//@   params v, bytes
+//@   returns (res, err)
+//@   attr result0.dyn = *types.Version
+//@   requires length: len(bytes) >= 2
+//@   define R = unbox("*types.Version", res)
+//@   ensures value: err == nil && dyntype(res) == typeid("*types.Version") && fresh(R) && *R == 256 * bytes[0] + bytes[1]
+
+//@ func (MacAddress).MarshalUT0311L0x
+//@   params m
+//@   returns (b, err)
+//@   ensures value: err == nil && len(b) == 6 && (forall k int :: 0 <= k && k < 6 ==> b[k] == (k < len(m) ? m[k] : 0))
+//@   ensures fresh: fresh(b)
+
+//@ func (*MacAddress).UnmarshalUT0311L0x
+//@   params m, bytes
+//@   returns (res, err)
+//@   attr result0.dyn = *types.MacAddress
+//@   requires length: len(bytes) >= 6
+//@   define R = unbox("*types.MacAddress", res)
+//@   ensures value: err == nil && dyntype(res) == typeid("*types.MacAddress") && fresh(R) && len(*R) == 6 && fresh(*R) &&
+//@                    (forall k int :: 0 <= k && k < 6 ==> (*R)[k] == bytes[k])
